@@ -211,3 +211,48 @@ func VerifC01_shared() {
 		vfAssert(hIsCell, "item-unchanged")
 	}
 }
+
+type vfNilSafe struct{ s string }
+
+func (x *vfNilSafe) String() string {
+	if x == nil {
+		return "(none)"
+	}
+	return x.s
+}
+
+type vfNilSafeErr struct{}
+
+func (x *vfNilSafeErr) Error() string { return "no-error-value" }
+
+// VerifC01_typednil: typed nil values are items like any other: a nil pointer with a nil-safe text
+// method gives that method's result, other typed nils are formatted by %v; floats are formatted by %v.
+func VerifC01_typednil() {
+	var item interface{}
+	want := ""
+	switch vfChoice("kind", 9) {
+	case 0:
+		item, want = (*vfNilSafe)(nil), "(none)"
+	case 1:
+		item, want = (*vfNilSafeErr)(nil), "no-error-value"
+	case 2:
+		item, want = (*int)(nil), "<nil>"
+	case 3:
+		item, want = []string(nil), "[]"
+	case 4:
+		item, want = map[string]int(nil), "map[]"
+	case 5:
+		item, want = float32(0.1), "0.1"
+	case 6:
+		item, want = float32(2.24), "2.24"
+	case 7:
+		item, want = float64(2.5), "2.5"
+	case 8:
+		item, want = 1e21, "1e+21"
+	}
+	c := NewCell(item)
+	vfAssert(c.String() == want, "text")
+	vfAssert(c.Empty() == (want == ""), "empty-iff-text-empty")
+	vfAssert(c.TerminalCellWidth() == len(want), "width-of-that-text")
+	vfObserveStr("text", c.String())
+}
